@@ -273,7 +273,7 @@ class System(object):
                 mm = n if m == -1 else min(m, n)
                 x = np.array(ps[:mm]).T
                 y = np.array(REF_P[:mm]).T
-                rank = geom.cross_cov_rank(x, y) if mm >= 1 else 0
+                rank = geom.cross_cov_rank_safe(x, y) if mm >= 1 else 0
                 may_refuse = rank < 2
                 r, t, c = o.align(ref, correct_scale=with_scale and not only,
                                   correct_only_scale=only, n=m)
